@@ -43,6 +43,20 @@ def showPackets (ps : List Packet) : String :=
 
 def nat! (s : String) : Nat := s.toNat?.getD 0
 
+/-- parse a packet view as printed by `showPacket` (of either side) -/
+def parsePacketView (t : String) : Option Packet :=
+  match t.splitOn ":" with
+  | [ty, ver, dev, stream, seq, ts, ifid, vend, flags, seg, _valid, _len, data] =>
+    match ofHexChars ty.toList, parseBytes data with
+    | some tb, some d =>
+      some { payload := some ⟨beDec tb, d⟩, version := nat! ver, deviceId := nat! dev, streamId := nat! stream, seq := nat! seq,
+             ts := nat! ts, ifId := nat! ifid, vendorId := nat! vend, flags := nat! flags, segType := nat! seg }
+    | _, _ => none
+  | _ => none
+
+def splitAt (sep : String) (w : List String) : List String × List String :=
+  (w.takeWhile (· != sep), (w.dropWhile (· != sep)).drop 1)
+
 /-- decode one buffer on a decoder slot (capture-module path only; TECMP handled by caller) -/
 def decodeBuf (d : DecSlot) (b : Bytes) : DecSlot × List Packet :=
   if b.length < 8 then (d, [])
@@ -134,6 +148,48 @@ def stepLine (s : DState) (w : List String) : DState × String :=
       ({ s with decs := upsert s.decs d r.1 }, "sel " ++ " | ".intercalate r.2)
     | ["pending"] => (s, showPending slot)
     | _ => (s, "bad-op")
+  | "fld" :: cls :: bg :: rest =>
+    match Layout.all.find? (·.name == cls), (if bg == "default" then (Layout.all.find? (·.name == cls)).bind (fun c => ofHexChars c.dflt.toList) else parseBytes bg) with
+    | some c, some b =>
+      if b.length < c.size then (s, "bad-op")
+      else
+        let rec go (b : Bytes) : List String → Option Bytes
+          | [] => some b
+          | "set" :: f :: v :: more =>
+            match c.find f with
+            | some fld => if nat! v < 2 ^ fld.bits then go (setField fld (nat! v) b) more else none
+            | none => none
+          | _ => none
+        match go b rest with
+        | none => (s, "bad-op")
+        | some b' => (s, "raw=" ++ showBytes b' ++ String.join (c.fields.map fun f => s!" {f.name}={getField f b'}"))
+    | _, _ => (s, "bad-op")
+  -- chkfr <min> <max> <pkt ids…> | <frame hex…> : P_C07 / P_C08 on frames produced by the implementation
+  | "chkfr" :: mn :: mx :: rest =>
+    let (ids, frames) := splitAt "|" rest
+    let c : Ctx := ⟨nat! mn, nat! mx⟩
+    let batch := ids.map (lookup s.pkts)
+    match (frames.map parseBytes).foldr (fun o acc => match o, acc with | some b, some l => some (b :: l) | _, _ => none) (some []) with
+    | none => (s, "bad-op")
+    | some fb =>
+      match tileFrames fb with
+      | none => (s, "chk C07=false C08=false tiling-failed")
+      | some fs =>
+        let dom7 := batch.all fun p => p.payload.isSome && decide (p.data.length < 65536)
+        let dom8 := dom7 && batch.all fun p => decide (1 ≤ p.data.length)
+        let r7 := if dom7 then toString (P_C07 c (batch.map Packet.data) fs) else "na"
+        let r8 := if dom8 then toString (P_C08 c (batch.map fun p => (p.mt, p.data.length)) fs) else "na"
+        (s, s!"chk C07={r7} C08={r8}")
+  -- chkrt <dev> <stream> <pkt ids…> | <packet views…> : P_C01 on packets decoded by the implementation
+  | "chkrt" :: dev :: stream :: rest =>
+    let (ids, views) := splitAt "|" rest
+    let batch := ids.map (lookup s.pkts)
+    match (views.map parsePacketView).foldr (fun o acc => match o, acc with | some b, some l => some (b :: l) | _, _ => none) (some []) with
+    | none => (s, "chk C01=false unparsable")
+    | some dec =>
+      let vers := batch.map (·.version)
+      let dom := batch.all (fun p => p.wf) && !batch.isEmpty && vers.all (· == vers.headD 0)
+      (s, if dom then s!"chk C01={P_C01 (nat! dev) (nat! stream) batch dec}" else "chk C01=na")
   | ["tecmp", hx] =>
     match parseBytes hx with
     | none => (s, "bad-op")
